@@ -15,6 +15,7 @@ package main
 // E (one entry per expression k, in order): <form> V   with V a value in the same grammar, or `c!` / `r!`
 //   forms: v  a global z<k> bound to V          q  (quote V)
 //          p  (+ n-1 1)       (V = i:n)         l  (list (quote x)…)  (V a list)
+//          a  [n m …]         (V an array of ints: an array literal, so sugar is ~[…])
 //          c! (let)  — does not compile          r! an unbound symbol — run-time error
 // mode: sv  text, reader sugar  ^T ~e ~@e       lg  text, (syntaxQuote T) (unquote e), ~@e
 //       sh  as sv, and a list (hash k v …) with symbol keys is written {k: v …} (the reader
@@ -227,6 +228,12 @@ func sqExprText(ex []sqExpr, k int, param string) string {
 			parts = append(parts, "(quote "+x.text(nil, false, "")+")")
 		}
 		return "(" + strings.Join(parts, " ") + ")"
+	case "a":
+		parts := []string{}
+		for _, x := range e.val.kids {
+			parts = append(parts, strconv.Itoa(x.n))
+		}
+		return "[" + strings.Join(parts, " ") + "]"
 	case "c!":
 		return "(let)"
 	case "r!":
@@ -301,6 +308,9 @@ func sqExprSexp(env *zygo.Zlisp, ex []sqExpr, k int) zygo.Sexp {
 			parts = append(parts, q(x))
 		}
 		return zygo.MakeList(parts)
+	case "a":
+		x, _ := e.val.sexp(env, nil)
+		return x
 	case "c!":
 		return zygo.MakeList([]zygo.Sexp{env.MakeSymbol("let")})
 	}
@@ -716,6 +726,15 @@ func (s *sqGen) expr(v *sqv, mode string) int {
 	if v.kind == '(' {
 		forms = append(forms, "l", "l")
 	}
+	if v.kind == '[' {
+		ints := true
+		for _, k := range v.kids {
+			ints = ints && k.kind == 'i'
+		}
+		if ints {
+			forms = append(forms, "a", "a", "a")
+		}
+	}
 	f := forms[s.g.Rng.Intn(len(forms))]
 	if sqHasHash(v) {
 		f = "v"
@@ -1013,6 +1032,7 @@ func sqGenMain(g *Gen) {
 		"t lg n ( s:a U0 s:b ) ; p i:2",                           // ^(a (unquote (+ 1 1)) b)
 		"t sv n ( s:a U0 ) ; q ( s:x s:y )",                       // ~(quote (x y))
 		"t sv n [ U0 U1 ] ; l ( i:1 i:2 ) p i:3",                  // ~(list …) in an array
+		"t sv n ( s:a U0 U1 ) ; a [ i:1 i:2 ] a [ ]",              // ~[1 2]  ~[]
 		"t sv n S0 ; v ( i:1 i:2 )",                               // ^~@xs   splice outside any list
 		"t sv n S0 ; v ( )",                                       // ^~@()   empty
 		"t dr n S0 ; v ( i:1 i:2 i:3 )",                           //
